@@ -386,20 +386,11 @@ func generate(o *hlib.Out, cfg hlib.Config, sz sizes) {
 					for i, it := range batch {
 						if rok && fok {
 							cr := caseRes{mode: "b", prog: it.prog, input: ii, ok: ro[i].Equal(fo[i]), ref: ro[i].String(), fq: fo[i].String(), refEnd: ro[i].End}
-							if !cr.ok {
-								// attribute: the same program alone (mode d) with the repair preludes
-								if ok, a, _ := compareDirect(f, texts[i], in); !ok {
-									cr.known = classifyDirect(f, texts[i], a)
-								}
-							}
 							res = append(res, cr)
 						} else {
 							crumb("d", ii, texts[i])
 							ok, a, b := compareDirect(f, texts[i], in)
 							cr := caseRes{mode: "d", prog: it.prog, input: ii, ok: ok, ref: a.String(), fq: b.String(), refEnd: a.End}
-							if !ok {
-								cr.known = classifyDirect(f, texts[i], a)
-							}
 							res = append(res, cr)
 						}
 					}
@@ -416,9 +407,6 @@ func generate(o *hlib.Out, cfg hlib.Config, sz sizes) {
 					crumb("d", ii, progs[it.prog].text)
 					ok, a, b := compareDirect(f, progs[it.prog].text, in)
 					cr := caseRes{mode: "d", prog: it.prog, input: ii, ok: ok, ref: a.String(), fq: b.String(), refEnd: a.End}
-					if !ok {
-						cr.known = classifyDirect(f, progs[it.prog].text, a)
-					}
 					res = append(res, cr)
 				}
 				flush()
@@ -427,6 +415,49 @@ func generate(o *hlib.Out, cfg hlib.Config, sz sizes) {
 		}()
 	}
 	wg.Wait()
+	// Second look at every disagreement, one at a time, now that the workers are idle (on a loaded machine a
+	// 5 s / 120 s limit can fire on a trivial program): a disagreement in which a `timeout` takes part is
+	// re-evaluated and the new observations decide; every remaining disagreement is then attributed to a
+	// recorded finding or not (repair preludes; a batch case by the same program alone).
+	{
+		f := newFq()
+		cur := -1
+		retried, recovered := 0, 0
+		for ii := range results {
+			for k := range results[ii] {
+				c := &results[ii][k]
+				if c.ok {
+					continue
+				}
+				if cur != ii {
+					if err := f.setIn(inputs[ii]); err != nil {
+						panic(fmt.Sprintf("cannot set $in: %v", err))
+					}
+					cur = ii
+				}
+				text := progs[c.prog].text
+				if strings.Contains(c.ref, "timeout") || strings.Contains(c.fq, "timeout") {
+					retried++
+					a := runRefT(text, inputs[ii], longTimeout)
+					b := f.evalDirectT(text, longTimeout)
+					c.mode, c.ok, c.ref, c.fq, c.refEnd = "d", a.Equal(b), a.String(), b.String(), a.End
+					if c.ok {
+						recovered++
+						continue
+					}
+				}
+				a := runRefT(text, inputs[ii], longTimeout)
+				if c.mode == "b" {
+					if b := f.evalDirectT(text, longTimeout); a.Equal(b) {
+						continue // only the batch disagrees: stays a PROPFAIL of mode b
+					}
+				}
+				c.known = classifyDirect(f, text, a)
+			}
+		}
+		o.Stat("timeouts_second_look", retried)
+		o.Stat("timeouts_second_look_agree", recovered)
+	}
 	tRun := time.Since(t0) - tGen
 
 	// per program: observations over its inputs
